@@ -268,6 +268,9 @@ func (p *parser) parseObjectPropertyKey() (string, string) {
 		// null, false, class, etc.
 		if matchIdentifier.MatchString(literal) {
 			value = literal
+		} else {
+			// 11.1.5: a PropertyName is an IdentifierName, a string or a number.
+			p.errorUnexpectedToken(tkn)
 		}
 	}
 	return literal, value
